@@ -620,9 +620,12 @@ func NumCPU() int {
 	return runtime.NumCPU()
 }
 
+// GOMAXPROCS: the simulated process runs with GOMAXPROCS raised above its number of CPUs
+// (as GOMAXPROCS=n in the environment or `go test -cpu` does), so that code which confuses
+// the two is told apart.
 func GOMAXPROCS(n int) int {
 	if s := Current(); s != nil {
-		return s.Cfg.NumCPU
+		return s.Cfg.NumCPU + 3
 	}
 	return runtime.GOMAXPROCS(n)
 }
